@@ -117,16 +117,26 @@ Prefs(t) == CASE t.k = "pref"  -> {<<t.inst, t.port>>}
               [] t.k = "cat"   -> UNION {Prefs(t.parts[k]) : k \in 1..Len(t.parts)}
               [] t.k = "anon"  -> UNION {Prefs(t.mem[k].t) : k \in 1..Len(t.mem)}
               [] OTHER -> {}
+(* ... those not below a slice of a concatenation: a slice of a concatenation may select none of a part's bits, and a reference in a part
+   that contributes nothing is discarded before it is ever resolved - whether such a mention "references" the port is left open *)
+RECURSIVE PrefsStrict(_)
+PrefsStrict(t) == CASE t.k = "pref"  -> {<<t.inst, t.port>>}
+                    [] t.k = "slice" -> IF t.of.k = "cat" THEN {} ELSE PrefsStrict(t.of)
+                    [] t.k = "cat"   -> UNION {PrefsStrict(t.parts[k]) : k \in 1..Len(t.parts)}
+                    [] t.k = "anon"  -> UNION {PrefsStrict(t.mem[k].t) : k \in 1..Len(t.mem)}
+                    [] OTHER -> {}
 ModFaults(D, mn) ==
   LET m == D.mods[mn]
       refs == UNION {UNION {Prefs(i.conns[k].t) : k \in 1..Len(i.conns)} : i \in Range(m.insts)}
+      srefs == UNION {UNION {PrefsStrict(i.conns[k].t) : k \in 1..Len(i.conns)} : i \in Range(m.insts)}
       ncports == UNION {{<<i.n, i.conns[k].p>> : k \in {j \in 1..Len(i.conns) : i.conns[j].t.k = "nc"}} : i \in Range(m.insts)}
       names == [k \in 1..(Len(m.sigs) + Len(m.bundles) + Len(m.insts)) |->
                   IF k <= Len(m.sigs) THEN m.sigs[k].n
                   ELSE IF k <= Len(m.sigs) + Len(m.bundles) THEN m.bundles[k - Len(m.sigs)].n
                   ELSE m.insts[k - Len(m.sigs) - Len(m.bundles)].n]
   IN UNION {InstFaults(D, m, i, refs) : i \in Range(m.insts)}
-     \cup (IF refs \cap ncports # {} THEN {"noconn_port_is_referenced"} ELSE {})
+     \cup (IF srefs \cap ncports # {} THEN {"noconn_port_is_referenced"}
+           ELSE IF refs \cap ncports # {} THEN {"noconn_port_mentioned_below_slice_of_concat"} ELSE {})
      \cup (IF Cardinality(Range(names)) # Len(names) THEN {"duplicate_name"} ELSE {})
 
 RECURSIVE Reach(_, _, _)      \* modules reachable from mn; depth-bounded so that cycles terminate
@@ -149,7 +159,7 @@ AnyLenient(D) == \E mn \in Reach(D, D.top, NMods(D)) : \E i \in Range(D.mods[mn]
 
 (* rules whose violation C02 does not list among the faults that must be rejected: nothing is demanded of such designs *)
 Unlisted == {"noconn_in_concat", "noconn_in_anon_bundle", "noconn_on_array_or_pair_bundle_port", "slice_of_bundle", "bundle_in_concat",
-             "duplicate_connection", "empty_array", "duplicate_name"}
+             "duplicate_connection", "empty_array", "duplicate_name", "noconn_port_mentioned_below_slice_of_concat"}
 
 Status(D) == LET f == FaultClauses(D) IN
              IF f \ Unlisted # {} THEN "fault"
